@@ -34,9 +34,11 @@ def compute_mc_paths_giles(rmse: float, vl: np.array, cl: np.array) -> np.array:
     cl_zerocost[
         cl_zerocost == 0
     ] = 1e30  # to avoid potential division by 0 in the following line
-    return np.ceil(
-        np.sqrt(vl / cl_zerocost) * np.sum(np.sqrt(vl * cl)) / ((1 - theta) * rmse**2)
-    ).astype(int)
+    optimal = np.sqrt(vl / cl_zerocost) * np.sum(np.sqrt(vl * cl)) / ((1 - theta) * rmse**2)
+    # astype(int) of nan (statistics of a level without paths), inf (rmse**2 underflows) or a huge value wraps to INT_MIN
+    if not np.all(optimal < 2.0**63):
+        raise ValueError("the optimal number of paths is not a representable integer")
+    return np.ceil(optimal).astype(int)
 
 
 def criteria_giles(alpha: float, ml: np.array, rmse: float) -> bool:
